@@ -215,7 +215,7 @@ func (e *effective) usesNegative() bool {
 	return false
 }
 
-const hugeLimit = 3000
+const hugeLimit = 10000
 
 func floorMod(a, n int64) int64 {
 	m := a % n
